@@ -3,7 +3,7 @@
 # Applies a change to a scratch worktree of /repo under /tmp, runs the named checks against it with all outputs
 # redirected to /tmp/teeth-out/<name>, prints one line per check, removes the worktree.
 set -u
-V=$(cd "$(dirname "$0")/.." && pwd)
+VR=$(cd "$(dirname "$0")/.." && pwd)
 NAME=$1; CHANGE=$2; shift 2
 WT=/tmp/teeth-wt-$NAME
 OUT=/tmp/teeth-out/$NAME
@@ -15,7 +15,7 @@ case "$CHANGE" in
   *) git -C "$WT" apply "$CHANGE" || { echo "$NAME: cannot apply $CHANGE"; git -C /repo worktree remove --force "$WT"; exit 3; } ;;
 esac
 for P in "$@"; do
-  VERIF_REPO=$WT VERIF_OUTDIR=$OUT $V/check "$P" --tier ${TEETH_TIER:-quick} > "$OUT/$P.log" 2>&1
+  VERIF_REPO=$WT VERIF_OUTDIR=$OUT $VR/check "$P" --tier ${TEETH_TIER:-quick} > "$OUT/$P.log" 2>&1
   RC=$?
   V=$(grep -c "^VIOLATION" "$OUT/$P.log")
   NF=$(grep -c "no-failing-input-found" "$OUT/$P.log")
@@ -31,4 +31,4 @@ PY
   echo "$NAME $P exit=$RC violations=$V nofailinginput=$NF clauses=$CL"
 done
 git -C /repo worktree remove --force "$WT"
-flock $V/.check.lock sh -c "cd $V/harness && VERIF_REPO=/repo sh gen_gomod.sh"; git -C $V checkout -- lean/ElysModel/Gen 2>/dev/null
+flock $VR/.check.lock sh -c "cd $VR/harness && VERIF_REPO=/repo sh gen_gomod.sh"; git -C $VR checkout -- lean/ElysModel/Gen 2>/dev/null
